@@ -1,10 +1,11 @@
 (* A Drv-style module over the `ctrl` case type that lets the correspondence check evaluate the
    well-formedness predicate of the observer links on every generated case:
-   F (holdsb false) = generated cases outside [case_wfb]  (expected: none),
+   F (holdsb false) = generated cases outside [case_wfb] or whose map does not read back under k_q
+   ([dev_wfb], needed by the C01 device-content link)  (expected: none),
    M (mismatch true) = cases on which the C04 link does not apply (default-PID settling rule). *)
 From F2G Require Export Drv.Common gen.Consts Model.Util Model.Fan Model.ControlLoop Model.Controller Drv.Ctrl.
-From F2G Require Import Proofs.CtrlLinksC04 Proofs.CtrlLinksAll.
+From F2G Require Import Proofs.CtrlLinksC04 Proofs.CtrlLinksAll Proofs.CtrlLinksC01Dev.
 
-Definition holdsb (c : case) : bool := case_wfb c.
+Definition holdsb (c : case) : bool := case_wfb c && dev_wfb c.
 Definition mismatch (c : case) : bool := negb (alg_okb (k_alg c)).
 Definition finding_code (c : case) : Z := 0.
